@@ -78,7 +78,7 @@ def run(ctx) -> None:
     ctx.analysed(vic)
     handled = set()
     for n in walk_no_nested(vic.node):
-        if isinstance(n, ast.Compare) and norm(n.left) == "node.instruction_name" and isinstance(n.ops[0], ast.Eq):
+        if isinstance(n, ast.Compare) and norm(n.left) == f"{vic.node.args.args[1].arg}.instruction_name" and isinstance(n.ops[0], ast.Eq):
             r = norm(n.comparators[0])
             if r.startswith("InterpreterCommandEnum."):
                 handled.add(members.get(r.split(".")[1]))
@@ -131,7 +131,7 @@ def run(ctx) -> None:
     v = pi.methods["visit"]
     ctx.analysed(v)
     g = cfg_of(v)
-    comp = [n for n in g.nodes if n.kind == "test" and norm(n.ast) == "node.completed"]
+    comp = [n for n in g.nodes if n.kind == "test" and norm(n.ast) == f"{v.node.args.args[1].arg}.completed"]
     sup = [n for n in g.nodes if any(isinstance(x, ast.Call) and norm(x.func) == "super().visit" for x in n.walk())]
     if not sup:
         raise AnchorError("PInterpreter.visit: super().visit(node) not found")
